@@ -6,8 +6,9 @@
     order_documented text_directives_are_markup_directives index_is_position
     frames_restored frames_restored_binds choice_stack_restored choose_restores_choice_stack
     outer_variables_kept lookup_after_eq_before render_restores_context
+    fuel_irrelevant_impl fuel_irrelevant_doc impl_eq_doc_partial
 -/
-import Genshi.Lemmas.Tmpl
+import Genshi.Lemmas.TmplSimMain
 namespace Genshi.Props.C04
 open Genshi Genshi.Tmpl
 
@@ -106,6 +107,43 @@ theorem render_restores_context (n : Nat) (ns : List TNode) (data : Env) (st' : 
   · exact h1
   · simp [St.init] at h1
 
+/-! ### implementation = documentation -/
+
+/-- More fuel never changes an answer of the implementation model (fuel is not an observable). -/
+theorem fuel_irrelevant_impl (n m : Nat) (t : ITask) (st : St) (r : IRes)
+    (h : run n t st = r) (hr : r ≠ .error .fuel) (hm : n ≤ m) : run m t st = r :=
+  run_mono h hr hm
+
+/-- … nor of the documentation semantics. -/
+theorem fuel_irrelevant_doc (n m : Nat) (t : DTask) (loc : Env) (st : DSt) (r : DRes)
+    (h : doc n t loc st = r) (hr : r ≠ .error .fuel) (hm : n ≤ m) : doc m t loc st = r :=
+  doc_mono h hr hm
+
+/-
+  Full statement (kept visible):
+    for every well-formed template `ns` (py: attributes of one element pairwise distinct, only
+    def/when/otherwise/for/if/choose/with/replace in element form) and all data,
+      (∃ n, docRender n ns data = r ∧ r ≠ fuel)  ↔  (∃ m, implRender m ns data ≈ r)
+    where ≈ is equality on outputs and "both fail" on errors.
+  Proved: the direction and case below — whenever the documentation semantics defines an output,
+  the implementation model (extraction, attach, directive chain over frames and choice stack,
+  flatten) produces exactly that output.  Missing: agreement of failing renders and the converse
+  direction (needs the reverse simulation); both are exercised by the correspondence check only.
+-/
+/-- search: markup -/
+theorem impl_eq_doc_partial (ns : List TNode) (data : Env) (n : Nat) (o : List Event)
+    (hwf : wfNodes ns = true) (h : docRender n ns data = .ok o) :
+    ∃ m, implRender m ns data = .ok o := by
+  unfold docRender at h
+  simp only [bind_ok, pure, Except.pure, Except.ok.injEq] at h
+  obtain ⟨⟨o', d'⟩, h1, rfl⟩ := h
+  obtain ⟨st', ⟨m, hm⟩, _⟩ := sim_ok n (.nodes ns) [] ⟨data, [], none⟩ _ d' h1 hwf (St.init data) rfl
+    ⟨rfl, rfl, rfl, by intro i dm m h; simp at h⟩ trivial
+  refine ⟨m, ?_⟩
+  unfold implRender
+  simp only [taskOf] at hm
+  simp [hm, bind, Except.bind, pure, Except.pure]
+
 /-! ### non-vacuity -/
 
 private def c (s : String) : List Char := s.toList
@@ -121,5 +159,6 @@ example : implRender 100 ex1 ex1data =
     .ok [startEv ['a'] [], tx ['2'] true, endEv ['a'], tx ['o']] := by rfl
 
 example : docRender 100 ex1 ex1data = implRender 100 ex1 ex1data := by rfl
+example : wfNodes ex1 = true := by decide
 
 end Genshi.Props.C04
